@@ -15,7 +15,7 @@
 //           | digits into an exact-size garbage destination | digits into an oversized destination (first n) | RingToRns(a_last) into an
 //           empty destination | answer of the first call
 //   fixed <hist> <tt> n p1..pn r1..rn                RNSsystemFixed<Integer>, residues in a vector<tt> (or Array0<Integer>: tt = array0)  -> V V2
-//   cra <dom> <reduce 1|0> M D A e                   ChineseRemainder<IntegerDom,Dom,reduce>  -> res res(copy) res(assigned)  (constructor arguments changed before use)
+//   cra <dom> <reduce 1|0> M D A e                   ChineseRemainder<IntegerDom,Dom,reduce>  -> res res(copy)   (constructor arguments changed before use; assignment: c14_craassign.C)
 //   lift <dom> <atonce|prepared|copies> n p.. r..    incremental lifting x_1..x_n by the functor | RNSsystem::RnsToRing
 //   poly <hist> <dom> p n a1..an r1..rn d c0..cd     Poly1CRT<dom> over GF(p)
 //        -> coefficients of RnsToRing(r) (low degree first, degree-stripped) | evaluations of the polynomial c at a_i
@@ -347,13 +347,7 @@ static std::string run_cra(const Integer& M, const Integer& Dm, const Integer& A
     CRA_t copy(*CRA);
     delete CRA; delete Mvar; delete Dvar;
     Integer res2(-5); copy(res2, A, ee);
-    // a functor built for other arguments, then assigned
-    Integer M2(M + 2); Dom D2(Integer(7));
-    CRA_t asg(ID, M2, D2);
-    typename Dom::Element e7; D2.init(e7, Integer(3)); Integer d7; asg(d7, Integer(1), e7);
-    asg = copy;
-    Integer res3(17); asg(res3, A, ee);
-    return str(res) + " " + str(res2) + " " + str(res3);
+    return str(res) + " " + str(res2);       // (assignment of functors: harness/c14_craassign.C)
 }
 
 // incremental lifting over a list of moduli:  x_1 = r_1,  x_{i+1} = lift(x_i, r_{i+1})  with M_i = p_1 ... p_i
